@@ -72,13 +72,88 @@ fn cmd_cases(args: &[String], engine_for: EngineFor) {
     }
 }
 
-fn cmd_run_case(args: &[String], run_explicit: RunExplicit) {
+/// Fingerprint of a case run alone in a fresh child process of this binary (`None`: the child did
+/// not end normally).
+fn isolated_fingerprint(case: &Case, args: &[String]) -> Option<String> {
+    static N: std::sync::atomic::AtomicU64 = std::sync::atomic::AtomicU64::new(0);
+    let n = N.fetch_add(1, std::sync::atomic::Ordering::Relaxed);
+    let dir = std::env::temp_dir();
+    let path = dir.join(format!("verif-iso-{}-{}.json", std::process::id(), n));
+    std::fs::write(&path, serde_json::to_string(case).ok()?).ok()?;
+    let exe = std::env::current_exe().ok()?;
+    let repo = arg(args, "--repo").unwrap_or("/repo");
+    let out = std::process::Command::new(exe).arg("run-case").arg(&path).arg("--repo").arg(repo).env_remove("VERIF_ANNOUNCE").stderr(std::process::Stdio::null()).output().ok();
+    let _ = std::fs::remove_file(&path);
+    let out = out?;
+    let text = String::from_utf8_lossy(&out.stdout);
+    let v: serde_json::Value = serde_json::from_str(text.trim().rsplit('\n').next()?).ok()?;
+    v.get("fingerprint").and_then(|f| f.as_str()).map(|s| s.to_string())
+}
+
+/// A case that stands for "the path of worker `shard` from `from_unit` up to case `sub` of `unit`,
+/// in one process": the replay of a failure that needs what the process did before.
+fn shard_prefix_case(prop: &str, args: &[String], shard: &str, from_unit: u64, unit: u64, sub: u64) -> Case {
+    let mut c = Case::new(prop, "shard-prefix", b"");
+    c.extra.insert("shard".into(), shard.into());
+    c.extra.insert("tier".into(), arg(args, "--tier").unwrap_or("quick").into());
+    c.extra.insert("seed".into(), arg(args, "--seed").and_then(|s| s.parse::<u64>().ok()).unwrap_or(20240607).into());
+    c.extra.insert("from_unit".into(), from_unit.into());
+    c.extra.insert("unit".into(), unit.into());
+    c.extra.insert("sub".into(), sub.into());
+    c.origin = format!("worker path of shard {shard}: units from {from_unit}, up to unit {unit} case {sub}, in one process");
+    c
+}
+
+/// Re-executes a worker's deterministic path up to (unit, sub) in this process; the last case is
+/// then also run alone in a child process and the fingerprints are compared. A death on the way
+/// is the replayed failure itself.
+fn run_shard_prefix(case: &Case, args: &[String], engine_for: EngineFor) -> Outcome {
+    let mut ctx = ctx_from(args);
+    ctx.tier = if case.extra_str("tier") == Some("thorough") { Tier::Thorough } else { Tier::Quick };
+    ctx.seed = case.extra.get("seed").and_then(|v| v.as_u64()).unwrap_or(ctx.seed);
+    let eng = engine_for(&case.prop, ctx);
+    let (si, sn) = case.extra_str("shard").and_then(|s| s.split_once('/')).map(|(a, b)| (a.parse::<u64>().unwrap_or(0), b.parse::<u64>().unwrap_or(1))).unwrap_or((0, 1));
+    let (from_unit, unit_id, sub) = (case.extra_usize("from_unit").unwrap_or(0) as u64, case.extra_usize("unit").unwrap_or(0) as u64, case.extra_usize("sub").unwrap_or(0));
+    let announce = std::env::var("VERIF_ANNOUNCE").is_ok();
+    let mut out = Outcome::default();
+    for unit in eng.units() {
+        if unit.isolated || unit.id % sn != si || unit.id < from_unit || unit.id > unit_id {
+            continue;
+        }
+        for (i, c) in eng.cases(&unit).enumerate() {
+            let last = unit.id == unit_id && i == sub;
+            if announce && last {
+                eprintln!("ANNOUNCE {} last-case-of-the-path", i);
+            }
+            let o = eng.run(&c);
+            if last {
+                out = o;
+                if out.violation.is_none() {
+                    match isolated_fingerprint(&c, args) {
+                        Some(f) if f != format!("{:016x}", out.fingerprint) => out.violate(
+                            format!("{} result depends on what the process did before (process-wide state)", case.prop),
+                            format!("case {}:{} gave fingerprint {:016x} after the worker path, {} alone in a fresh process: {}", unit.id, sub, out.fingerprint, f, c.origin),
+                        ),
+                        _ => {}
+                    }
+                }
+                return out;
+            }
+            if unit.id == unit_id && i > sub {
+                break;
+            }
+        }
+    }
+    out
+}
+
+fn cmd_run_case(args: &[String], run_explicit: RunExplicit, engine_for: EngineFor) {
     let path = args.get(2).expect("case file");
     let text = std::fs::read_to_string(path).expect("read case file");
     let v: serde_json::Value = serde_json::from_str(&text).expect("case json");
     // a replay file wraps the case; a bare case is accepted too
     let case: Case = if v.get("case").is_some() { serde_json::from_value(v["case"].clone()).expect("case") } else { serde_json::from_value(v).expect("case") };
-    let out = run_explicit(&case, &ctx_from(args));
+    let out = if case.scenario == "shard-prefix" { run_shard_prefix(&case, args, engine_for) } else { run_explicit(&case, &ctx_from(args)) };
     println!(
         "{}",
         serde_json::json!({
@@ -107,17 +182,28 @@ fn cmd_worker(args: &[String], engine_for: EngineFor) {
         .unwrap_or_default();
     let only: Option<u64> = arg(args, "--only-unit").and_then(|s| s.parse().ok());
     let max_viol_per_unit = 25usize;
+    let mut first_unit: Option<u64> = None;
     for unit in eng.units() {
         if unit.isolated || unit.id % sn != si || done.contains(&unit.id) || only.is_some_and(|o| o != unit.id) {
             continue;
         }
-        let res = run_unit(eng.as_ref(), &unit, progress.as_ref(), &skip, distinct.as_mut(), max_viol_per_unit);
+        let iso = IsoCtx { args, shard, first_unit: first_unit.get_or_insert(unit.id).to_owned() };
+        let res = run_unit(eng.as_ref(), &unit, progress.as_ref(), &skip, distinct.as_mut(), max_viol_per_unit, &iso);
         writeln!(out, "{}", serde_json::to_string(&res).unwrap()).expect("write result");
         out.flush().ok();
     }
 }
 
-fn run_unit(eng: &dyn Engine, unit: &UnitSpec, progress: Option<&File>, skip: &[(u64, u64)], distinct: Option<&mut File>, max_viol: usize) -> UnitResult {
+struct IsoCtx<'a> {
+    args: &'a [String],
+    shard: &'a str,
+    /// first unit this worker process ran (the start of its path)
+    first_unit: u64,
+}
+
+fn run_unit(eng: &dyn Engine, unit: &UnitSpec, progress: Option<&File>, skip: &[(u64, u64)], distinct: Option<&mut File>, max_viol: usize, iso: &IsoCtx) -> UnitResult {
+    let isolate_every = eng.isolate_every(unit);
+    let mut iso_violations = 0usize;
     let mut res = UnitResult { unit: unit.id, name: unit.name.clone(), exhaustive: unit.exhaustive, ..Default::default() };
     let mut probes: BTreeMap<String, u64> = BTreeMap::new();
     let mut ids: Vec<u8> = Vec::new();
@@ -132,7 +218,23 @@ fn run_unit(eng: &dyn Engine, unit: &UnitSpec, progress: Option<&File>, skip: &[
             buf[8..].copy_from_slice(&(sub as u64).to_le_bytes());
             let _ = p.write_at(&buf, 0);
         }
-        let out = eng.run(&case);
+        let mut out = eng.run(&case);
+        let mut explicit_override: Option<Case> = None;
+        if let Some(k) = isolate_every {
+            if out.violation.is_none() && sub as u64 % k == 0 && iso_violations < 3 {
+                if let Some(f) = isolated_fingerprint(&case, iso.args) {
+                    out.probes.push(("reach:case-compared-with-its-run-alone-in-a-fresh-process", 1));
+                    if f != format!("{:016x}", out.fingerprint) {
+                        iso_violations += 1;
+                        out.violate(
+                            format!("{} result depends on what the process did before (process-wide state)", eng.prop()),
+                            format!("case {}:{} gave fingerprint {:016x} in the worker process, {} alone in a fresh process: {}", unit.id, sub, out.fingerprint, f, case.origin),
+                        );
+                        explicit_override = Some(shard_prefix_case(eng.prop(), iso.args, iso.shard, iso.first_unit, unit.id, sub as u64));
+                    }
+                }
+            }
+        }
         res.cases += 1;
         res.steps += out.steps;
         if out.accepted {
@@ -167,7 +269,7 @@ fn run_unit(eng: &dyn Engine, unit: &UnitSpec, progress: Option<&File>, skip: &[
             // keep the first few per signature
             let same = res.violations.iter().filter(|(x, _)| x.signature == v.signature).count();
             if same < 3 && res.violations.len() < max_viol {
-                res.violations.push((v, eng.explicit(&case)));
+                res.violations.push((v, explicit_override.unwrap_or_else(|| eng.explicit(&case))));
             }
         }
     }
@@ -199,7 +301,7 @@ pub fn main_with(engine_for: EngineFor, run_explicit: RunExplicit) {
     match args.get(1).map(|s| s.as_str()) {
         Some("units") => cmd_units(&args, engine_for),
         Some("cases") => cmd_cases(&args, engine_for),
-        Some("run-case") => cmd_run_case(&args, run_explicit),
+        Some("run-case") => cmd_run_case(&args, run_explicit, engine_for),
         Some("worker") => cmd_worker(&args, engine_for),
         Some("merge-distinct") => cmd_merge_distinct(&args),
         _ => {
